@@ -57,12 +57,23 @@ type SimWriter struct {
 // sentinel, the errors a closed pipe gives (a caller may be tempted to treat
 // those as "the reader went away, fine"), io.ErrShortWrite, a wrapped one, and
 // one whose dynamic type cannot be compared with == (a slice of errors, as
-// multi-error types are): code that compares two such values panics.
+// multi-error types are): code that compares two such values panics; and one
+// that calls itself temporary.
 var faultErrors = []error{
 	ErrInjected, io.ErrClosedPipe, syscall.EPIPE, io.ErrShortWrite,
 	&os.PathError{Op: "write", Path: "|1", Err: syscall.EPIPE},
 	severalErrors{ErrInjected, syscall.EPIPE},
+	temporaryError{},
 }
+
+// temporaryError says of itself that trying again might work (as net.Error
+// values do).  The writer has failed all the same: what was not written is
+// not written, and a renderer that goes on must still report it.
+type temporaryError struct{}
+
+func (temporaryError) Error() string   { return "resource temporarily unavailable" }
+func (temporaryError) Temporary() bool { return true }
+func (temporaryError) Timeout() bool   { return true }
 
 type severalErrors []error
 
